@@ -575,12 +575,19 @@ Proof.
   exists refuting_siblings. split.
   - unfold refuting_siblings. constructor; [|constructor; [intros []|constructor]].
     intros [H|[]]. discriminate.
-  - vm_compute. reflexivity.
+  - (* through a boolean: the type of the table must not be normalised *)
+    assert (H : (match hash_siblings refuting_siblings with None => true | Some _ => false end) = true)
+      by (vm_compute; reflexivity).
+    destruct (hash_siblings refuting_siblings); [discriminate|reflexivity].
 Qed.
 
-(* the hypothesis of lyb_hashseq_identifies is met by non-trivial sibling sets: four leaves of module m,
-   the last one collides with the first on collision id 0 (hash 0xa5) and is printed with two hashes *)
+(* the hypothesis of lyb_hashseq_identifies is met by non-trivial sibling sets: four leaves a, b, c, n256 of
+   module m; n256 collides with a on collision id 0 (hash 0xca) and is printed with two hashes (id 1 first) *)
 Example hashseq_example :
-  exists ht, hash_siblings [([109], [97]); ([109], [98]); ([109], [99]); ([109], [110; 51; 56])] = Some ht /\
-             print_schema_hash ht 3 ([109], [110; 51; 56]) <> print_schema_hash ht 0 ([109], [97]).
-Proof. eexists. split; [vm_compute; reflexivity|]. vm_compute. discriminate. Qed.
+  match hash_siblings [([109], [97]); ([109], [98]); ([109], [99]); ([109], [110; 50; 53; 54])] with
+  | Some ht => (print_schema_hash ht 0 ([109], [97]), print_schema_hash ht 3 ([109], [110; 50; 53; 54]))
+  | None => (None, None)
+  end = (Some [202], Some [71; 202]).
+Proof. vm_compute. reflexivity. Qed.
+
+
